@@ -530,13 +530,30 @@ fn gen_c08(seed: u64) -> Plan {
         }
         add(&mut b.plan, at, Action::User(UserOp::SetScripts { cmd, scripts }));
     }
-    b.plan.flags = vec![
+    let mut flags: Vec<String> = vec![
         "honest".into(),
         "index".into(),
         "crash".into(),
         "expect_caught_up".into(),
         "stop_when_caught_up".into(),
     ];
+    if b.rng.chance(1, 3) {
+        // a shallow reorg during the sync: the writes of the fork rollback are crash points too
+        let back = b.rng.range(1, b.plan.knobs.last_n.min(6).max(1));
+        let n = back + b.rng.range(1, 3);
+        if b.plan.knobs.check_point_interval <= 2 * back + 2 {
+            b.plan.knobs.check_point_interval = 2000;
+        }
+        let t = b.rng.range(4_000, until.max(5_000));
+        add(&mut b.plan, t, Action::Fork { src: 0, back, n });
+        for p in 0..b.plan.peers.len() {
+            let at = t + b.rng.range(1, 8_000);
+            add(&mut b.plan, at, Action::SwitchBranch { peer: p, branch: 1 });
+        }
+        flags.push("main=1".into());
+        flags.push("fork".into());
+    }
+    b.plan.flags = flags;
     finish(b, until, 600_000)
 }
 
